@@ -175,6 +175,21 @@ example : (match photonAccess f5 (initObj 0 240) .red with
   intro c ch hc
   cases c <;> simp [File.chan, f5] at hc <;> subst hc <;> exact ⟨by decide, ⟨3, by decide⟩⟩
 
+/-- **repair_not_inherited_witness** (kernel-checked; the restriction of `purity_after_repair_partial` to objects derived
+    AFTER the photon-count access is necessary).  On the F5 kymograph: a copy made BEFORE `get_image("red")` keeps the nominal
+    start 0 and a line time computed from it (20 ns), the source is repaired to start 50 (line time 60 ns), and a copy made
+    AFTER the access starts at 50 — two copies of one object differ by when they were made, and every twin answers 0 / 20 ns. -/
+theorem repair_not_inherited_witness :
+    run f5 0 240 [.d 0 .copy, .q 0 (.prim (.image .red)), .q 0 .start, .q 1 .start, .q 1 (.prim .lineTime),
+        .q 0 (.prim .lineTime), .d 0 .copy, .q 2 .start]
+      = [.static [0] 0, .at (.image .red) 50 240, .int 50, .int 0, .at .lineTime 0 240, .at .lineTime 50 240, .static [6] 0,
+          .int 50]
+    ∧ freshAll f5 0 240 [.d 0 .copy, .q 0 (.prim (.image .red)), .q 0 .start, .q 1 .start, .q 1 (.prim .lineTime),
+        .q 0 (.prim .lineTime), .d 0 .copy, .q 2 .start]
+      = [.static [0] 0, .at (.image .red) 50 240, .int 0, .int 0, .at .lineTime 0 240, .at .lineTime 0 240, .static [6] 0,
+          .int 0] := by
+  decide +kernel
+
 /-! ## clause 3: the arrays handed out cannot alter cached state (buffer model `Verif.C19.Alias`) -/
 
 open Alias in
